@@ -16,6 +16,7 @@ from .. import core, family
 
 SPEC = os.path.join(core.VERIF, "specs", "Rescan")
 DRIVER = os.path.join(core.VERIF, "harness", "overlay", "neutrino", "zz_verif_rescan_test.go")
+DRIVER_FREE = os.path.join(core.VERIF, "harness", "overlay", "neutrino", "zz_verif_rescan_free_test.go")
 PKG = core.REPO
 
 READY = False
@@ -83,7 +84,15 @@ UNIVERSES = {
                   BlockTxs=[[], [], [], [1], [2], [1], [2]],
                   StartB=1, StartT=1, InitWatch=[1], InitChain=[0, 1, 2], InitFH=2,
                   Updates=[dict(add=[2], rw=1)]),
+    # free-running executions: main branch 1-5, fork after 2 (6,7,8), fork of the
+    # fork after 6 (9,10); two create->spend chains, an external outpoint
+    "big": dict(Parent=[-1, 0, 1, 2, 3, 4, 2, 6, 7, 6, 9],
+                TxPays=[1, 0, 2, 0, 1, 0], TxSpends=[0, 1, 0, 7, 0, 5], ExtScript=[3],
+                BlockTxs=[[], [], [1], [2, 3], [4], [5], [3], [1, 2, 4], [5, 6], [4, 1], [5, 2]],
+                StartB=1, StartT=2, InitWatch=[1, 107], InitChain=[0, 1, 2, 3], InitFH=3,
+                Updates=[dict(add=[2], rw=2), dict(add=[2], rw=0), dict(add=[105], rw=1)]),
 }
+UNIVERSES["biglag"] = dict(UNIVERSES["big"], InitFH=2, Lag=True)
 
 
 def _heights(parent):
@@ -146,6 +155,14 @@ SCENARIOS = {
     ],
 }
 
+# free-running executions (universe, runs, steps per run, updates per run)
+FREE = {
+    "quick": [("big", 48, 150, 1)],
+    "thorough": [("big", 640, 400, 2), ("biglag", 640, 400, 2)],
+}
+UNBOUNDED = dict(MaxExt=1000000, MaxRb=1000000, MaxFail=1000000, MaxUpd=1000000, MaxNotCur=1000000,
+                 StaleFilterOK=True, WithQuit=True)
+
 ASSUMPTIONS = [
     "the caller's start block (given by hash and height) is on the best chain when the rescan initialises; the "
     "documented fallback to the block at that height is not explored",
@@ -207,6 +224,91 @@ class _Agg:
             self.edges += g.edges
 
 
+def trace_check(spec_dirs, consts, traces, wd, timeout=3000):
+    """Is every observed trace a behaviour of Rescan.tla (TraceRescan.tla)?
+    Returns [(trace id, step)] of the rejected ones."""
+    import subprocess
+    rejected = []
+    rest = list(traces)
+    rnd = 0
+    while rest:
+        rnd += 1
+        d = os.path.join(wd, "tr%d" % rnd)
+        os.makedirs(d, exist_ok=True)
+        for sd in spec_dirs:
+            for f in os.listdir(sd):
+                if f.endswith(".tla"):
+                    shutil.copy(os.path.join(sd, f), d)
+        owner = []
+        with open(os.path.join(d, "trace.ndjson"), "w") as f:
+            for t in rest:
+                f.write(json.dumps({"t": 0, "i": 0, "act": {"op": "Init"}, "obs": t["init_obs"]}) + "\n")
+                owner.append((t, 0))
+                for i, st in enumerate(t["steps"]):
+                    f.write(json.dumps({"t": 0, "i": i + 1, "act": st["act"], "obs": st["obs"]}) + "\n")
+                    owner.append((t, i + 1))
+        cfg = ["INIT TInit", "NEXT TNext", "CONSTANTS"]
+        cfg += ["  %s = %s" % (k, core.tla_value(v)) for k, v in consts.items()]
+        cfg += ["CONSTRAINT HighWater", "POSTCONDITION Post", "CHECK_DEADLOCK FALSE"]
+        open(os.path.join(d, "TraceRescan.cfg"), "w").write("\n".join(cfg) + "\n")
+        env = dict(os.environ)
+        env.pop("JAVA_TOOL_OPTIONS", None)
+        p = subprocess.run(["timeout", str(timeout), "java", "-XX:+UseParallelGC", "-Xss256m", "-cp", core.TLA_CP,
+                            "tlc2.TLC", "-workers", "1", "-metadir", os.path.join(d, "meta"),
+                            "-noGenerateSpecTE", "TraceRescan.tla"], cwd=d, stdout=subprocess.PIPE,
+                           stderr=subprocess.STDOUT, text=True, env=env)
+        hf = os.path.join(d, "hw.json")
+        if not os.path.exists(hf):
+            raise core.MachineryError("TraceRescan TLC failed rc=%d\n%s" % (p.returncode, p.stdout[-3000:]))
+        hw = json.load(open(hf))
+        shutil.rmtree(d, ignore_errors=True)
+        if hw["n"] != len(owner):
+            raise core.MachineryError("TraceRescan read %d of %d lines" % (hw["n"], len(owner)))
+        if hw["hw"] >= len(owner) + 1:
+            break
+        t, i = owner[hw["hw"] - 1]           # the line that no action of the specification matches
+        rejected.append((t["id"], i))
+        k = rest.index(t)
+        rest = rest[k + 1:]
+    return rejected
+
+
+def _free(k, uname, runs, steps, maxupd, prop_id, seed, sc, binary):
+    """free-running executions of the real rescan: judged by Props and checked
+    to be behaviours of the specification"""
+    u = universe(uname)
+    ud = os.path.join(sc, "f%d" % k)
+    uj = write_universe(u, ud)
+    sd = os.path.join(sc, "frun%d" % k)
+    os.makedirs(sd, exist_ok=True)
+    cfg = dict(seed=seed, runs=runs, steps=steps, max_upd=maxupd, stale_ok=True)
+    obs, log = family.run_driver(binary, "TestVerifRescanFree", "-", os.path.join(sc, "fobs%d.ndjson" % k), sd,
+                                 env_extra={"VERIF_UNIVERSE": uj, "VERIF_FREE": json.dumps(cfg)})
+    v = family.judge([SPEC, ud], "RescanProps", PROPS[prop_id], prop_id, obs, label=label)
+    consts = dict(UNBOUNDED)
+    consts["Lag"] = bool(u["Lag"])
+    consts.update(CODE_VERSION)
+    rej = trace_check([SPEC, ud], consts, [t for t in obs if not t.get("error")], sd)
+    samples = []
+    by_id = {t["id"]: t for t in obs}
+    for (tid, i) in rej[:5]:
+        t = by_id[tid]
+        samples.append({"trace": "free-%s/%s" % (uname, tid), "step": i,
+                        "what": "not a behaviour of Rescan.tla",
+                        "labels": [label(x["act"]) for x in t["steps"][:i]][-12:],
+                        "code_obs": t["steps"][i - 1]["obs"] if i > 0 else t["init_obs"]})
+    for t in obs:
+        t["uni"] = uname
+        t["id"] = "free-%s/%s" % (uname, t["id"])
+    for x in v["violations"]:
+        x["trace"] = "free-%s/%s" % (uname, x["trace"])
+    info = {"universe": uname, "free_runs": len(obs), "steps": sum(len(t["steps"]) for t in obs),
+            "callbacks_observed": sum(len(s["obs"]["ev"]) for t in obs for s in t["steps"]),
+            "retry_timer_fired": sum(1 for t in obs for s in t["steps"] if s["act"]["op"] == "Retry"),
+            "rejected_by_spec": len(rej)}
+    return dict(obs=obs, v=v, rejected=len(rej), samples=samples, info=info)
+
+
 def _scenario(k, uname, over, prop_id, tier, seed, sc, binary, replay):
     """model -> paths -> real rescan -> judge, for one universe."""
     rng = random.Random("%d/%s/%d" % (seed, uname, k))
@@ -265,7 +367,7 @@ def run(prop_id, tier, seed, replay=None):
     t0 = time.time()
     sc = core.scratch("rs")
     try:
-        binary = family.build_overlay_test(PKG, [DRIVER], os.path.join(sc, "neutrino.test"))
+        binary = family.build_overlay_test(PKG, [DRIVER, DRIVER_FREE], os.path.join(sc, "neutrino.test"))
         if replay:
             d = json.load(open(replay))
             scen = [(d["trace"].get("uni", "fork"), None)]
@@ -274,7 +376,11 @@ def run(prop_id, tier, seed, replay=None):
         with ThreadPoolExecutor(max_workers=3) as ex:
             futs = [ex.submit(_scenario, k, uname, over, prop_id, tier, seed, sc, binary, replay)
                     for k, (uname, over) in enumerate(scen)]
+            ffuts = [] if replay else [
+                ex.submit(_free, k, uname, runs, steps, mu, prop_id, seed, sc, binary)
+                for k, (uname, runs, steps, mu) in enumerate(FREE[tier])]
             res = [f.result() for f in futs]
+            fres = [f.result() for f in ffuts]
         agg = _Agg()
         observed, all_paths, per = [], [], []
         verdict = {"violations": [], "known": {}, "n_lines": 0, "wall": 0.0, "raw": 0}
@@ -299,10 +405,25 @@ def run(prop_id, tier, seed, replay=None):
             races += r["races"]
             unreach_total += r["unreach"]
             per.append(r["info"])
+        free_info = []
+        for r in fres:
+            observed += r["obs"]
+            v = r["v"]
+            verdict["violations"] += v["violations"]
+            for kid, kv in v["known"].items():
+                if kid in verdict["known"]:
+                    verdict["known"][kid]["count"] += kv["count"]
+                else:
+                    verdict["known"][kid] = kv
+            verdict["n_lines"] += v["n_lines"]
+            verdict["raw"] += v["raw"]
+            dr[1] += r["rejected"]
+            dr[2] += r["samples"]
+            free_info.append(r["info"])
         dr[2] = dr[2][:5]
         return family.finish(prop_id, tier, seed, t0, agg, agg if agg.edges else None, all_paths, observed,
                              verdict, tuple(dr),
-                             {"scenarios": per, "timer_races": races, "code_version": CODE_VERSION,
+                             {"scenarios": per, "free_running": free_info, "timer_races": races, "code_version": CODE_VERSION,
                               "edges_only_reachable_through_model_violation": unreach_total},
                              ASSUMPTIONS, label=label)
     finally:
